@@ -50,6 +50,12 @@ class Multiplication:
     if factor < 0:
       raise gfapy.ArgumentError("Mulitiplication factor must be >= 0"+
           " ({} found)".format(factor))
+    if distribute and distribute not in self.LINKS_DISTRIBUTION_POLICY:
+      # (checked before anything is changed)
+      raise gfapy.ArgumentError(
+          "Unknown links distribution policy {}\n".format(distribute)+
+          "accepted values are: {}".format(
+            ", ".join(self.LINKS_DISTRIBUTION_POLICY)))
     elif factor == 0:
       if conserve_components and factor == 1 and self.is_cut_segment(segment):
         return self
